@@ -69,7 +69,7 @@ def _run_cli(path, goal, flag, param):
 
 
 def _frac(x):
-    x = sp.nsimplify(x, rational=True)
+    x = exppoly.exact(x)
     if not x.is_Rational:
         raise Unsupported(f"not rational: {x}")
     return f"{x.p}/{x.q}"
@@ -125,7 +125,7 @@ def _values(exprs, n, subs, nvals):
         row = []
         for s in exprs:
             v = s.subs(subs).subs(n, i)
-            v = sp.nsimplify(sp.simplify(v)) if not v.is_Rational else v
+            v = exppoly.exact(v)
             row.append(f"{v.p}/{v.q}" if v.is_Rational else "~" + str(sp.N(v, 30)))
         out.append(row)
     return out
@@ -236,7 +236,9 @@ def _dump_a(a, recs, made, goal, p, n, points, nvals, closed_form_data, enc_cf):
     a["iota"] = iota
     gkey = sp.sympify(monom) * delta
     a["goal_index"] = emons.index(gkey) if gkey in emons else None
-    if sp.simplify(esols[a["goal_index"]] - sens) != 0:
+    if a["goal_index"] is None:
+        raise Unsupported("delta*goal is not an unknown of the extended system")
+    if esols[a["goal_index"]] != sens and sp.simplify(esols[a["goal_index"]] - sens) != 0:
         raise Unsupported("printed sensitivity differs from the solver's closed form of delta*goal")
     a["instances"] = []
     for pt in points:
